@@ -439,6 +439,9 @@ def run(ctx, rep):
     from . import tables
     tables.r18d(ctx, rep)
     r18i(ctx, rep)
+    from . import C03
+    C03.r03g(ctx, rep, rule="R18k")
+    C03.r03i(ctx, rep, rule="R18l")
     r18j(ctx, rep)
     from . import C10
     C10.r10j(ctx, rep, rule="R18h")
